@@ -185,7 +185,7 @@ def values_for(c, ctx):
     if c.py_type is IntArray:
         return [[], [0], [1, 2, 3], [-1], [2 ** 63 - 1, -2 ** 63], [2 ** 64], list(range(200)), [True], (4, 5)] + [[rng.randint(-I63, I63 - 1) for _ in range(rng.choice([1, 3, 9]))] for _ in range(4 * n)]
     if c.py_type is StrArray:
-        return [[], [''], ['a', 'b'], ['"', "'", '\\', ','], ['中', '\U0001f600', '\x00'], ['[', ']'], ['a' * 1000], 'single'] + [[rand_str(rng) for _ in range(rng.choice([1, 2, 5]))] for _ in range(4 * n)]
+        return [[], [''], ['a', 'b'], ['"', "'", '\\', ','], ['\x01\x1f\x7f', '\u2028\u2029', '\\u0041', '\b\f\n\r\t', '/'], ['中', '\U0001f600', '\x00'], ['[', ']'], ['a' * 1000], 'single'] + [[rand_str(rng) for _ in range(rng.choice([1, 2, 5]))] for _ in range(4 * n)]
     if c.py_type is FloatArray:
         return [[], [0.0], [1.5, -2.25], [1e308, 5e-324], [0.1, 0.2, 0.30000000000000004], [1, 2], [math.inf]] + [[rng.uniform(-1e9, 1e9) for _ in range(rng.choice([1, 3]))] for _ in range(3 * n)]
     raise AssertionError(c.name)
@@ -377,6 +377,13 @@ def run_values(ctx, db, ents, rawcon, cs):
             if isinstance(bound, str) and all(ord(ch) < 0xd800 or ord(ch) > 0xdfff for ch in bound):
                 reqs.append({'op': 'affinity', 'decl': conv.get_sql_type(), 's': [ord(ch) for ch in bound]})
                 metas.append(('affinity', dict(inp, bound=bound[:80], column=conv.get_sql_type()), r))
+            # ---- int / str arrays: the model's dumps text against the raw column, its loads against the fresh session's value
+            if c.name in ('intarray', 'strarray') and isinstance(seen, list):
+                if c.name == 'intarray' and all(isinstance(x, int) and not isinstance(x, bool) for x in seen):
+                    reqs.append({'op': 'intarray', 'items': list(seen)}); metas.append(('array', inp, r))
+                elif c.name == 'strarray' and all(isinstance(x, str) and all(not 0xd800 <= ord(ch) <= 0xdfff for ch in x) for x in seen):
+                    reqs.append({'op': 'strarray', 'items': [[ord(ch) for ch in x] for x in seen]}); metas.append(('array', inp, r))
+                else: ctx.count('array-model-skip')
             # ---- the model
             if c.model is None: continue
             mv = model_value(c, seen)
@@ -398,6 +405,16 @@ def compare_model(ctx, reqs, metas):
         ctx.note('driver unavailable: model correspondence skipped'); return
     outs = ctx.driver('C07', reqs)
     for req, (c, inp, r), out in zip(reqs, metas, outs):
+        if c == 'array':
+            ctx.case(['array', inp['value']], kind='model-tie:array')
+            if 'driver_error' in out: ctx.divergence('driver error', inp, model=out); continue
+            got = r['got']
+            mtext = ''.join(map(chr, out['text']))
+            mload = out['loaded']
+            if mload is not None and mload and isinstance(mload[0], list): mload = [''.join(map(chr, x)) for x in mload]
+            if mtext != r['raw'][1] or mload != (list(got) if got is not None else None):
+                ctx.divergence('array codec model (dumps text / loads) differs from real Pony', inp, model={'text': mtext[:200], 'loaded': repr(mload)[:200]}, impl={'raw': repr(r['raw'])[:200], 'got': repr(got)[:200]})
+            continue
         if c == 'affinity':
             ctx.case(['affinity', inp['column'], inp['bound']], kind='model-tie:affinity')
             if 'driver_error' in out: ctx.divergence('driver error', inp, model=out); continue
